@@ -178,6 +178,7 @@ type c20PMMsg struct {
 	k    int
 	sig  int
 	n    int
+	off  int // confirm: error in the Height field (0 = well formed)
 }
 
 func c20PMPlan(rnd *rand.Rand, n int) []c20PMMsg {
@@ -219,6 +220,9 @@ func c20PMPlan(rnd *rand.Rand, n int) []c20PMMsg {
 	for cnum := rnd.Intn(2 * n); cnum > 0; cnum-- {
 		pos := rnd.Intn(len(plan) + 1)
 		m := c20PMMsg{kind: "confirm", k: 1 + rnd.Intn(n), sig: 1 + rnd.Intn(3)}
+		if rnd.Intn(12) == 0 {
+			m.off = 1 // a malformed confirm: right hash, wrong height
+		}
 		plan = append(plan[:pos], append([]c20PMMsg{m}, plan[pos:]...)...)
 	}
 	// let the drain timer fire in the middle of the delivery sometimes
@@ -243,7 +247,11 @@ func c20PMCase(seed int64, maxN int) (res c20PMOut) {
 		case "blocks":
 			planText = append(planText, fmt.Sprintf("blocks%v", m.ks))
 		case "confirm":
-			planText = append(planText, fmt.Sprintf("confirm(%d,s%d)", m.k, m.sig))
+			if m.off != 0 {
+				planText = append(planText, fmt.Sprintf("confirm(%d,s%d,height+%d)", m.k, m.sig, m.off))
+			} else {
+				planText = append(planText, fmt.Sprintf("confirm(%d,s%d)", m.k, m.sig))
+			}
 		default:
 			planText = append(planText, fmt.Sprintf("ticks(%d)", m.n))
 		}
@@ -383,6 +391,7 @@ func c20PMCase(seed int64, maxN int) (res c20PMOut) {
 		}
 		return true
 	}
+	malformed := false // a confirm with a wrong height was sent: early it is never merged, late it is accepted (by design of the caches); the in-order comparison of confirms/stable is skipped, the correspondence is not
 	delivered := map[int]bool{}
 	sentConfirms := map[int]map[int]bool{}
 	stalled := false
@@ -421,12 +430,16 @@ func c20PMCase(seed int64, maxN int) (res c20PMOut) {
 			chain.mu.Lock()
 			cn := chain.confirmN
 			chain.mu.Unlock()
-			d := &network.BlockConfirmData{Hash: blocks[m.k].Hash(), Height: blocks[m.k].Height()}
+			d := &network.BlockConfirmData{Hash: blocks[m.k].Hash(), Height: blocks[m.k].Height() + uint32(m.off)}
 			d.SignInfo[0] = byte(m.sig)
 			buf, _ := rlp.EncodeToBytes(d)
 			if err := pm.VerifWork(&p2p.Msg{Code: p2p.ConfirmMsg, Content: buf}, peer); err != nil {
 				fail("c20/pm-handler-error", "handleConfirmMsg: "+err.Error())
 				return
+			}
+			if m.off != 0 {
+				malformed = true
+				count("pm:confirm-wrong-height")
 			}
 			if has {
 				count("pm:confirm-after-block")
@@ -442,11 +455,13 @@ func c20PMCase(seed int64, maxN int) (res c20PMOut) {
 			} else {
 				count("pm:confirm-before-block")
 			}
-			if sentConfirms[m.k] == nil {
-				sentConfirms[m.k] = map[int]bool{}
+			if m.off == 0 {
+				if sentConfirms[m.k] == nil {
+					sentConfirms[m.k] = map[int]bool{}
+				}
+				sentConfirms[m.k][m.sig] = true
 			}
-			sentConfirms[m.k][m.sig] = true
-			emit(fmt.Sprintf("confirm %d %d %d", base, m.k, m.sig), show())
+			emit(fmt.Sprintf("confirm %d %d %d %d", base, m.k, m.sig, m.off), show())
 		case "ticks":
 			for i := 0; i < m.n; i++ {
 				if _, ok := waitTick(); !ok {
@@ -521,7 +536,7 @@ func c20PMCase(seed int64, maxN int) (res c20PMOut) {
 	}
 	if cur != base+uint32(n) || len(missing) > 0 {
 		fail("c20/sync-diverged", fmt.Sprintf("every block of the segment 1..%d was delivered at least once, the drain reached its fixpoint, but CurrentBlock height is %d (in-order node: %d); blocks never inserted: %v; block cache now holds %d blocks", n, cur, base+uint32(n), missing, bc.Size()))
-	} else if len(lostConf) > 0 || stable != wantStable {
+	} else if !malformed && (len(lostConf) > 0 || stable != wantStable) {
 		sort.Strings(lostConf)
 		fail("c20/sync-confirm-lost", fmt.Sprintf("confirms not attached to their block: %v; StableBlock height %d, in-order node %d", lostConf, stable, wantStable))
 	} else {
